@@ -9,8 +9,8 @@ import (
 	"github.com/AliyunContainerService/terway/pkg/eni"
 	"github.com/AliyunContainerService/terway/pkg/k8s"
 	"github.com/AliyunContainerService/terway/pkg/storage"
-	"github.com/AliyunContainerService/terway/types"
 	"github.com/AliyunContainerService/terway/rpc"
+	"github.com/AliyunContainerService/terway/types"
 	"github.com/AliyunContainerService/terway/types/daemon"
 )
 
@@ -33,7 +33,9 @@ func VerifNewService(k k8s.Kubernetes, db storage.Storage, mgr *eni.Manager, v4,
 }
 
 // VerifGC runs one garbage-collection pass of the service.
-func VerifGC(ctx context.Context, s rpc.TerwayBackendServer) error { return s.(*networkService).gcPods(ctx) }
+func VerifGC(ctx context.Context, s rpc.TerwayBackendServer) error {
+	return s.(*networkService).gcPods(ctx)
+}
 
 // VerifFilterENINotFound exposes the start-up filter of stored allocations.
 func VerifFilterENINotFound(podResources []daemon.PodResources, attached map[string]*daemon.ENI) []daemon.PodResources {
